@@ -554,7 +554,7 @@ class Engine:
             obligs.extend(run.obligs)
             scripts.extend(run.path.alternatives)
             npaths += 1
-            if npaths > 600:
+            if npaths > 3000:
                 problems.append((label, 'unsupported', 'path explosion', []))
                 break
         if not nonparam and not fi.module.startswith('lemma_'):
@@ -651,6 +651,7 @@ class Engine:
             if sp.chain:
                 run.st.assume(g)      # a sequential proof: later clauses are proved under the earlier ones
         C.frame_obligations(run, entry, descs, roots, sp.props)
+        C.caller_owned_stores(run, entry, descs, roots, tuple(set(sp.props) | {'C18'}))
 
     # ------------------------------------------------------------------------------ non-interference
     def vary_learned(self, run, st, ref):
